@@ -1,7 +1,27 @@
 use crate::vf::engine::Prop;
 
 pub mod c01;
+pub mod c02;
+pub mod c03;
+pub mod c05;
+pub mod c06;
+pub mod c07;
+pub mod c08;
+pub mod c10;
+pub mod c11;
 
 pub fn all() -> Vec<Box<dyn Prop>> {
-    vec![Box::new(c01::C01)]
+    vec![
+        Box::new(c01::C01),
+        Box::new(c02::C02),
+        Box::new(c03::C03),
+        Box::new(c03::C04),
+        Box::new(c05::C05),
+        Box::new(c06::C06),
+        Box::new(c07::C07),
+        Box::new(c08::C08),
+        Box::new(c07::C09),
+        Box::new(c10::C10),
+        Box::new(c11::C11),
+    ]
 }
